@@ -183,6 +183,17 @@ impl EventLoop {
 
         let inflight_full = self.state.inflight >= self.state.max_outgoing_inflight;
         let collision = self.state.collision.is_some();
+        // Requests carried over from the previous connection are served before the channel.
+        // Those which already own a packet id (unacknowledged publishes, pending releases) are
+        // retransmissions: the acknowledgements that reopen the window or resolve a collision
+        // may depend on them, so they are never held back. The others were merely queued when
+        // the connection failed; they are new requests and obey flow control like the channel.
+        let pending_ready = match self.pending.front() {
+            Some(Request::Publish(publish)) if publish.pkid != 0 => true,
+            Some(Request::PubRel(_)) => true,
+            Some(_) => !inflight_full && !collision,
+            None => false,
+        };
 
         // Read buffered events from previous polls before calling a new poll
         if let Some(event) = self.state.events.pop_front() {
@@ -197,7 +208,7 @@ impl EventLoop {
             // If available, prioritises pending requests from previous session.
             // Else, pulls next request from user requests channel.
             // If conditions in the below branch are for flow control.
-            // The branch is disabled if there's no pending messages and new user requests
+            // The branch is disabled if there's no pending retransmission and new user requests
             // cannot be serviced due flow control.
             // We read next user user request only when inflight messages are < configured inflight
             // and there are no collisions while handling previous outgoing requests.
@@ -225,7 +236,7 @@ impl EventLoop {
                 &mut self.pending,
                 &self.requests_rx,
                 self.options.pending_throttle
-            ), if !self.pending.is_empty() || (!inflight_full && !collision) => match o {
+            ), if pending_ready || (self.pending.is_empty() && !inflight_full && !collision) => match o {
                 Ok(request) => {
                     if let Some(outgoing) = self.state.handle_outgoing_packet(request)? {
                         network.write(outgoing).await?;
